@@ -399,6 +399,56 @@ class Winnow:
         m, n = rng
         return self.take_while(s, st, m, n, lambda t: b_not(self.pred_guard(set_, t, st)))
 
+    def p_take_escaped(self, s, st, normal, ctrl, escapable):
+        """ascii::take_escaped (winnow 0.6.7 complete_escaped_internal): runs of `normal`, each control character followed by
+        `escapable`; stops (returning the recognised slice) where neither applies, where `normal` makes no progress, or at the end"""
+        start = s
+        if isinstance(ctrl, ValRef):
+            ctrl = ctrl.v
+
+        def fin(cur):
+            k = len(start) - len(cur)
+            return ok(self.s_take(start, k), self.s_from(start, k))
+
+        def live(st0, g):
+            if g is False or (g is not True and not self.I.feasible(st0.pc, g)):
+                return None
+            return st0 if g is True else st0.fork(g)
+
+        def loop(cur, st2):
+            if len(cur) == 0:
+                return [(True, fin(cur))]
+            res = []
+            for g, o in self.run(normal, cur, st2):
+                st3 = live(st2, g)
+                if st3 is None:
+                    continue
+                if o[0] == "ok":
+                    if o[2].key() == cur.key():
+                        res.append((g, fin(cur)))
+                    else:
+                        res.extend((b_and(g, g2), o2) for g2, o2 in loop(o[2], st3))
+                elif o[0] == "err" and o[1] == "Backtrack":
+                    for g1, o1 in self.lit([ctrl], cur):
+                        st4 = live(st3, g1)
+                        if st4 is None:
+                            continue
+                        if o1[0] != "ok":
+                            res.append((b_and(g, g1), fin(cur)))
+                            continue
+                        for g2, o2 in self.run(escapable, o1[2], st4):
+                            st5 = live(st4, g2)
+                            if st5 is None:
+                                continue
+                            if o2[0] == "ok":
+                                res.extend((b_and(g, g1, g2, g3), o3) for g3, o3 in loop(o2[2], st5))
+                            else:
+                                res.append((b_and(g, g1, g2), o2))
+                else:
+                    res.append((g, o))
+            return res
+        return loop(s, st)
+
     def p_take(self, s, st, count):
         """token::take(count): exactly `count` tokens (characters of a &str), Backtrack when fewer remain"""
         from .stdmodel import ByteLen
@@ -810,6 +860,9 @@ def register(I):
     R["token::take_while"] = ctor("take_while", pick=lambda a, i: (rng_of(a[0]), a[1]))
     R["token::take_till"] = ctor("take_till", pick=lambda a, i: (rng_of(a[0]), a[1]))
     R["token::take"] = ctor("take", pick=lambda a, i: (a[0],))
+    R["ascii::take_escaped"] = ctor("take_escaped", pick=lambda a, i: (a[0], a[1], a[2]))
+    R["take_escaped"] = R["ascii::take_escaped"]
+    R["::take_escaped"] = R["ascii::take_escaped"]
     R["token::take_until"] = ctor("take_until", pick=lambda a, i: (rng_of(a[0]), a[1]))
     R["take_until"] = R["token::take_until"]
     R["::take_until"] = R["token::take_until"]
